@@ -130,13 +130,15 @@ pub struct Recd {
     /// certificates (DER) and verified facts, for the property oracle
     pub shown_cert_fps: Vec<String>,
     pub sig_ok_under: Vec<String>,
+    /// property-level failures seen while recording (clear-text records acted on)
+    pub clear_violations: Vec<String>,
 }
 
 impl Recd {
     pub async fn new(is_client: bool, cert: Certificate, expected: Option<String>) -> Recd {
         let ep = Endpoint::new(is_client, cert, expected.clone()).await;
         Recd { ep, expected, ops: vec![], outs: vec![], facts: BTreeMap::new(), keys: vec![], own: vec![], certs_seen: vec![],
-            srs_seen: vec![], last_ske_share: None, frag: (0, vec![]), ticks_done: 0, shown_cert_fps: vec![], sig_ok_under: vec![] }
+            srs_seen: vec![], last_ske_share: None, frag: (0, vec![]), ticks_done: 0, shown_cert_fps: vec![], sig_ok_under: vec![], clear_violations: vec![] }
     }
 
     fn note_sent(&mut self, sent: &[Vec<u8>]) {
@@ -256,6 +258,10 @@ impl Recd {
     /// deliver one datagram, run the endpoint to quiescence, record op + observation
     pub async fn inject(&mut self, dg: &[u8], src: SocketAddr) -> Vec<Vec<u8>> {
         self.learn(dg);
+        let (had_keys, before) = (!self.keys.is_empty(), self.ep.letter());
+        let recs = parse_records(dg);
+        let only_clear_app_or_alert = !recs.is_empty() && recs.iter().all(|r| r.epoch == 0 && (r.ctype == 23 || r.ctype == 21));
+        let clear_app = recs.iter().any(|r| r.epoch == 0 && r.ctype == 23);
         self.ep.deliver(dg, src).await;
         let sent = self.ep.pump().await;
         self.note_sent(&sent);
@@ -273,6 +279,13 @@ impl Recd {
         let tbl = self.aead_table(dg);
         self.ops.push(format!("dg,{},{}", hex(dg), tbl));
         let o = self.obs(&sent);
+        // oracle (C03, during the handshake too): clear-text application data is never handed up, and once keys
+        // exist a datagram made only of clear-text ApplicationData / Alert records changes nothing
+        let delivered_any = o.split(',').nth(2).map(|d| d != "-").unwrap_or(false);
+        if clear_app && delivered_any && recs.iter().all(|r| r.epoch == 0) { self.clear_violations.push("rec:handshake-phase:0:23:delivered-unauthenticated".into()); }
+        if had_keys && only_clear_app_or_alert && self.ep.letter() != before {
+            self.clear_violations.push(format!("rec:handshake-phase:0:{}:state-{}-to-{}-unauthenticated", recs[0].ctype, before, self.ep.letter()));
+        }
         self.outs.push(o);
         sent
     }
